@@ -706,6 +706,9 @@ func runC06(c *Ctx) {
 		}
 	}
 
+	// ---------- R9 collected elements are distinct objects ----------
+	checkFreshElements(c, "R9")
+
 	// ---------- R8 count guards refuse only what cannot fit ----------
 	checkCountGuards(c, "R8")
 
@@ -1092,6 +1095,35 @@ func checkAttrLadders(c *Ctx, rule string, sftpOnly bool) {
 				order = append(order, k)
 			}
 			lad[k] = toksString(toks, true)
+			// the flag test itself must not sit under another condition (`n > 0 && flags&X != 0`): it is reached
+			// from the previous section on every path, errors of a decoder apart
+			for cur, steps := b, 0; steps < 4 && len(cur.Preds) == 1; steps++ {
+				pred := cur.Preds[0]
+				piff, isIf := pred.Instrs[len(pred.Instrs)-1].(*ssa.If)
+				if !isIf {
+					cur = pred
+					continue
+				}
+				isFlagTest, isErrTest := false, false
+				if pc, ok := piff.Cond.(*ssa.BinOp); ok {
+					if a2, ok := pc.X.(*ssa.BinOp); ok && a2.Op == token.AND {
+						isFlagTest = true
+					}
+					if isNilConst(pc.Y) || isNilConst(pc.X) {
+						isErrTest = true
+					}
+					// a test of the flags word as a whole (`flags == 0`: nothing to do) is a flags condition too
+					for _, l := range leavesOf(pc.X) {
+						if (l.Kind == leafFieldLoad && l.Field == "Flags") || (l.Kind == leafParam && l.Param.Name() == "flags") {
+							isFlagTest = true
+						}
+					}
+				}
+				if !isFlagTest && !isErrTest {
+					guarded[k] = true
+				}
+				break
+			}
 			// the section must start unconditionally once the flag test has passed: a further condition between
 			// the flag test and the first field (say, "and the list is not empty") makes the block's presence
 			// depend on something the peer cannot see in the flags word
@@ -1355,4 +1387,60 @@ func checkCountGuards(c *Ctx, rule string) {
 			}
 		}
 	}
+}
+
+// checkFreshElements (C06.R9): a decoder that collects pointers to the elements it decodes must decode each element
+// into storage of its own.  `append(list, &x)` in a loop with x declared outside the loop makes every collected
+// pointer denote the same variable: all decoded elements equal the last one, and decode∘encode changes the bytes.
+func checkFreshElements(c *Ctx, rule string) {
+	p := c.P
+	n := 0
+	for _, fn := range decodeCone(p) {
+		loops := loopsOf(fn)
+		if len(loops) == 0 {
+			continue
+		}
+		ord := 0
+		eachInstr(fn, func(in ssa.Instruction) {
+			call, ok := in.(*ssa.Call)
+			if !ok || builtinName(&call.Call) != "append" || len(call.Call.Args) != 2 {
+				return
+			}
+			l := innermostLoop(loops, call.Block())
+			if l == nil {
+				return
+			}
+			// the appended elements: stores into the variadic array
+			sl, ok := call.Call.Args[1].(*ssa.Slice)
+			if !ok {
+				return
+			}
+			arr, ok := sl.X.(*ssa.Alloc)
+			if !ok {
+				return
+			}
+			for _, r := range *arr.Referrers() {
+				ia, ok := r.(*ssa.IndexAddr)
+				if !ok {
+					continue
+				}
+				for _, rr := range *ia.Referrers() {
+					st, ok := rr.(*ssa.Store)
+					if !ok {
+						continue
+					}
+					al, isAlloc := st.Val.(*ssa.Alloc)
+					if !isAlloc {
+						continue
+					}
+					n++
+					ord++
+					fresh := l.blocks[al.Block()]
+					c.check(fresh, rule, fmt.Sprintf("%s: collected element #%d has storage of its own", fnName(fn), ord), p.Pos(call.Pos()), "the variable whose address is appended is declared inside the loop",
+						"the loop appends the address of a variable declared outside it: every collected pointer denotes that one variable, so all decoded elements equal the last one decoded")
+				}
+			}
+		})
+	}
+	c.check(n >= 2, rule, "decoders that collect element pointers", "?", fmt.Sprintf("%d sites", n), fmt.Sprintf("only %d sites found", n))
 }
